@@ -141,9 +141,33 @@ def parseChain (truth : String) : Option (List HopTok) :=
     some (((String.ofList (truth.toList.drop 2)).splitOn ">").map parseHopTok)
   else none
 
+/-- who dials: the gun kind and whether the DNS-caching dialer is in the transport (round 4: a target given by a host
+name that could not be pre-resolved when the gun was configured: `tgt=nd|nf|nl`) -/
+structure DialCtx where
+  gun : GunKind := .http
+  dnsCache : Bool := false
+  redirect : Bool := false
+
+def dialCtxOf (kv : List (String × String)) : DialCtx :=
+  let tgt := getS kv "tgt"
+  { gun := (match getS kv "gun" with | "connect" => .connect | "http2" => .http2 | _ => .http),
+    dnsCache := tgt == "nd" || tgt == "nf" || tgt == "nl",
+    redirect := getS kv "redir" == "1" }
+
+/-- Truth tokens `fe<errno>` (the dial is refused with this errno) and `dt` (the dial times out): the model PREDICTS the
+error chain — `net.Dialer`'s error through the DNS-caching dialer, the CONNECT gun's dial function and the client
+(`Model.C10.dialFailure`) — instead of taking its shape from the observation; the Spec knows a failed exchange. -/
+def dialOutcome (dc : DialCtx) (tok : String) : Option (HttpOutcome × Truth) :=
+  match natAfter "fe" tok with
+  | some n => some (.doErr (dialFailure dc.gun dc.dnsCache false dc.redirect (.refused n)), .failed)
+  | none => if tok == "dt" then some (.doErr (dialFailure dc.gun dc.dnsCache false dc.redirect .timedOut), .failed) else none
+
 /-- outcome (model) and ground truth (Spec) of ONE exchange from the script's truth token, the error shape the real gun
 recorded and the status it reported (a body broken by a reset may also lose the head) -/
-def termOutcome (tok script : String) (obsProto : Nat) (shape : Err) : HttpOutcome × Truth :=
+def termOutcome (dc : DialCtx) (tok script : String) (obsProto : Nat) (shape : Err) : HttpOutcome × Truth :=
+  match dialOutcome dc tok with
+  | some r => r
+  | none =>
   match natAfter "rbx" tok, natAfter "rb" tok, natAfter "r" tok with
   | some st, _, _ =>
     if obsProto == st then (.response st (some shape), .bodyBroken st) else (.doErr shape, .failed)
@@ -158,16 +182,16 @@ def specLoc (c : Char) : Spec.C10.Loc :=
   if c == 'p' then .leadsOn else if c == 'u' then .unparsable else if c == 'l' then .loops else .absent
 
 /-- (model outcome, Spec truth) of a request: a single exchange, or a chain run through the client `redirect` selects -/
-def reqOutcome (redirect : Bool) (truth script : String) (obsProto : Nat) (shape : Err) : HttpOutcome × Truth :=
+def reqOutcome (redirect : Bool) (truth script : String) (obsProto : Nat) (shape : Err) (dc : DialCtx := {}) : HttpOutcome × Truth :=
   match parseChain truth with
-  | none => termOutcome truth script obsProto shape
+  | none => termOutcome dc truth script obsProto shape
   | some toks =>
     let mh : List Hop := toks.map fun t => match t with
       | .ans st c => .answer st (modelLoc c)
-      | .term tok => .last (termOutcome tok script obsProto shape).1
+      | .term tok => .last (termOutcome {} tok script obsProto shape).1
     let sh : List Spec.C10.ChainHop := toks.map fun t => match t with
       | .ans st c => .answer st (specLoc c)
-      | .term tok => .last (termOutcome tok script obsProto shape).2
+      | .term tok => .last (termOutcome {} tok script obsProto shape).2
     (clientDo redirect mh, Spec.C10.chainTruth redirect sh)
 
 def outcomeShape : HttpOutcome → String
@@ -197,7 +221,7 @@ def handleHttp (kv : List (String × String)) (impl : String) : String × String
         let shape := ((o1.bind fun o => parseShape o.shape).getD .other)
         -- outcome and ground truth from the script's truth token (a single exchange or a redirect chain)
         let (outcome, truth) : HttpOutcome × Truth :=
-          reqOutcome (getS kv "redir" == "1") r.truth r.script ((o1.map (·.proto)).getD 0) shape
+          reqOutcome (getS kv "redir" == "1") r.truth r.script ((o1.map (·.proto)).getD 0) shape (dialCtxOf kv)
         let shot : HttpShot := { ammoTag := r.tag, id := i + 1, path := r.path, outcome := outcome }
         let rep := (shootHttp cfg shot).reports
         let shp := outcomeShape outcome
@@ -355,6 +379,55 @@ def handleGrpc (kv : List (String × String)) (impl : String) : String × String
                else Spec.C10.judgeGrpc (reqs.map fun (tag, o) => (tag, grpcTruth o)) (obs.map ObsS.toObs)
       (fmtLine "ok" line, v)
 
+/-! k=grpcpool (round 4): a grpc/json file whose lines leave out optional keys, decoded into pooled ammo objects -/
+
+/-- `tag,kind,code,keys` — keys: which of the optional keys the line carries (t tag, m metadata, p payload) -/
+def parsePoolEntry (i : Nat) (s : String) : Option Entry :=
+  match s.splitOn "," with
+  | [tag, kind, code, keys] =>
+    let has (c : Char) : Bool := keys.toList.contains c
+    if kind == "bad" then some { decodable := false }
+    else if !["ok", "code", "nomethod", "badpayload"].contains kind then none
+    else some {
+      tag := if has 't' then some tag else none,
+      call := some (if kind == "nomethod" then "target.TargetService.NoSuchMethod" else "target.TargetService.Hello"),
+      metadata := if has 'm' then some (if kind == "code" then [("x-code", code)] else [("x-entry", s!"e{i}")]) else none,
+      payload := if has 'p' then some (if kind == "badpayload" then [("no_such_field", "1")] else [("name", "verif")]) else none }
+  | _ => none
+
+/-- the ground truth of an entry, read off the ENTRY (not off any ammo object): its tag and, when its call is made, the
+status the target answers -/
+def entryTruth (e : Entry) : String × Option Nat :=
+  (e.tag.getD "", grpcTruth (scriptedOutcome (deliver {} e)))
+
+def leStr (a b : String) : Bool := a < b || a == b
+
+def handleGrpcPool (kv : List (String × String)) (impl : String) : String × String :=
+  let toks := splitList (getS kv "ents") ";"
+  match ((List.range toks.length).zip toks).mapM fun (i, t) => parsePoolEntry i t with
+  | none => ("-", "fail:driver:unparsable ents")
+  | some ents =>
+    let passes := (getN? kv "passes").getD 1
+    let inst := (getN? kv "inst").getD 1
+    let all := replicate passes ents
+    -- the model's run: every object taken fresh (which pooled object is recycled does not matter: `C10_ammo_pool_reuse`)
+    let ammo := runAmmoPool deliver (fun _ => none) [] all
+    let parts := (shootAmmo ammo).map fun s => fmtSample false s "nil"
+    let line := fmtLine "ok" (if inst > 1 then parts.mergeSort leStr else parts)
+    let ikv := parseKV impl
+    match parseSamples false (getS ikv "s") with
+    | none => (line, s!"fail:crash:unparsable observation {impl.take 120}")
+    | some obs =>
+      let res := getS ikv "res"
+      let truths := all.map entryTruth
+      let v := if res != "ok" then s!"fail:run:{res}"
+               else if inst > 1 then
+                 match truths.mapM fun (t, c) => c.map fun k => (t, k) with
+                 | some sent => Spec.C10.judgeGrpcBag sent (obs.map ObsS.toObs)
+                 | none => "fail:driver:a case with several instances may only have entries whose call is made"
+               else Spec.C10.judgeGrpc truths (obs.map ObsS.toObs)
+      (line, v)
+
 def handleGrpcDirect (kv : List (String × String)) (impl : String) : String × String :=
   match unhex (getS kv "tag"), grpcOutcome (getS kv "kind") 0 with
   | some tag, some o =>
@@ -440,7 +513,33 @@ def handleGrpcScn (kv : List (String × String)) (impl : String) : String × Str
 
 /-! k=ids, k=errno, k=inv -/
 
+/-- round 4: `start=S` — the counter stands at S when the stretch begins (`k=idwrap`: NextID itself from g goroutines;
+`k=ids … start=S`: a whole pool run). The model: `runIds S`, i.e. the ids `S+1 … S+n` (mod 2^64). -/
+def handleIdsFrom (kv : List (String × String)) (impl : String) (start : Nat) : String × String :=
+  let n := if getS kv "k" == "idwrap" then ((getN? kv "g").getD 0) * ((getN? kv "n").getD 0) else (getN? kv "n").getD 0
+  let (cnt, distinct, mn, mx, below) : Nat × Nat × Nat × Nat × Nat :=
+    if n ≤ 3000 then
+      let ids := (runIds start (List.range n)).map Prod.snd
+      (ids.length, (if Spec.C10.idsUnique ids then ids.length else 0), ids.foldl min (ids.headD 0), ids.foldl max 0,
+        (ids.filter (· ≤ start)).length)
+    else (n, n, start + 1, start + n, 0)   -- closed form (`C10_ids_unique`, `C10_ids_far_into_a_run`), no wrap: start + n < 2^64
+  let m := s!"res=ok count={cnt} distinct={distinct} min={mn} max={mx} below={below}"
+  let ikv := parseKV impl
+  let v :=
+    if getS ikv "res" == "counter-narrow" then
+      s!"fail:ids:the id counter has only {getS ikv "bits"} bits: it cannot stand at {start}, ids repeat within a run of that length"
+    else if getS ikv "res" != "ok" then s!"fail:run:{getS ikv "res"}"
+    else match getN? ikv "count", getN? ikv "distinct", getN? ikv "below" with
+      | some c, some d, some b =>
+        if c != n then s!"fail:count:{c} samples for {n} requests"
+        else Spec.C10.judgeIdsFrom start c d b
+      | _, _, _ => s!"fail:crash:unparsable observation {impl.take 120}"
+  (m, v)
+
 def handleIds (kv : List (String × String)) (impl : String) : String × String :=
+  match getN? kv "start" with
+  | some start => handleIdsFrom kv impl start
+  | none =>
   -- k=ids: n acquisitions through a pool; k=idstress: g goroutines x n calls of NextID
   let n := if getS kv "k" == "idstress" then ((getN? kv "g").getD 0) * ((getN? kv "n").getD 0) else (getN? kv "n").getD 0
   -- the model: n atomic fetch-adds in whatever order the instances perform them. For small n the model is RUN; for large
@@ -557,6 +656,8 @@ def handle : Handler := fun input impl =>
   | "grpcdirect" => handleGrpcDirect kv impl
   | "ids" => handleIds kv impl
   | "idstress" => handleIds kv impl
+  | "idwrap" => handleIds kv impl
+  | "grpcpool" => handleGrpcPool kv impl
   | "shootstress" => handleShootStress kv impl
   | "errno" => handleErrno kv impl
   | "inv" => handleInv kv impl
